@@ -69,16 +69,14 @@ func (s *subPub) process() {
 	for {
 		select {
 		case info := <-s.subInfoChan:
-			var slice []*subInfo
-			v, ok := s.keyToNotifier.Load(info.key)
-			if !ok {
-				slice = make([]*subInfo, 0, 1)
-			} else {
-				slice = v.([]*subInfo)
-			}
-			slice = append(slice, &info)
-			s.keyToNotifier.Store(info.key, slice)
+			s.register(info)
 		case info := <-s.unsubInfoChan:
+			// A subscription is queued before its unsubscription can be. Handle
+			// the subscriptions that are still queued first, so that an
+			// unsubscription never overtakes the subscription it cancels.
+			for n := len(s.subInfoChan); n > 0; n-- {
+				s.register(<-s.subInfoChan)
+			}
 			v, ok := s.keyToNotifier.Load(info.key)
 			if !ok {
 				continue
@@ -99,6 +97,19 @@ func (s *subPub) process() {
 			}
 		}
 	}
+}
+
+// register adds a subscription to the list of its key, only called by process
+func (s *subPub) register(info subInfo) {
+	var slice []*subInfo
+	v, ok := s.keyToNotifier.Load(info.key)
+	if !ok {
+		slice = make([]*subInfo, 0, 1)
+	} else {
+		slice = v.([]*subInfo)
+	}
+	slice = append(slice, &info)
+	s.keyToNotifier.Store(info.key, slice)
 }
 
 // Publish the message, nameSpace kind param is that you use when you call Subscribe
